@@ -52,6 +52,8 @@ EVENTS = {
     'fp-open-sq': ['parse_fp 0 %s' % hx("s = 'abc")],
     'eof-in-list': ['parse_buf 0 %s' % hx('l = {1, 2')],
     # rejected between the '=' of a list and its first accepted value: nothing was stored
+    'long-string': ['parse_buf 0 %s' % hx('s = "%s"\ni = 4\n' % ('q' * 9000))],             # accepted; the scanner's token buffer has grown
+    'long-comment-bad': ['parse_buf 0 %s' % hx('/* %s */\ni = = 4\n' % ('c ' * 4500))],      # rejected after a long comment
     'dep-parse': ['parse_buf 0 %s' % hx('dep = 1\n')],                          # accepted, with the deprecation notice
     'include-via-searchpath': ['init? 1 @SID 0', 'add_searchpath 1 %s' % hx('spdir'), 'parse_buf 1 %s' % hx('include("good.conf")\n')],
     'eof-after-eq': ['parse_buf 0 %s' % hx('l =')],
@@ -68,7 +70,7 @@ EVENTS = {
     'eof-in-call-args': ['parse_buf 0 %s' % hx('include("good.conf", "x"')],
 }
 QUICK_EVENTS = ['bare-open-dq', 'bare-open-comment', 'eof-in-call-args', 'ok', 'open-dq', 'open-sq', 'open-comment', 'bad-escape', 'fail-in-include-1', 'fail-in-include-3', 'self-include', 'int-range',
-                'float-range', 'missing-include', 'reinit', 'second', 'eof-in-section', 'file-open-dq', 'eof-in-list', 'fp-fail-in-include-1', 'fp-fail-in-include-3', 'file-fail-in-include-3', 'eof-after-eq', 'range-first-value', 'dep-parse', 'include-via-searchpath']
+                'float-range', 'missing-include', 'reinit', 'second', 'eof-in-section', 'file-open-dq', 'eof-in-list', 'fp-fail-in-include-1', 'fp-fail-in-include-3', 'file-fail-in-include-3', 'eof-after-eq', 'range-first-value', 'dep-parse', 'include-via-searchpath', 'long-string', 'long-comment-bad']
 
 # events that are rejected before anything is stored: after a history made of these alone, the history's own context must give
 # the values a fresh context gives for the same probe sequence
@@ -179,7 +181,7 @@ def judge(spec, events, death):
     if spec.get('kind') == 'two':
         return judge_two(spec, events, death, v)
     hist = spec['hist']
-    aborted = [h for h in hist if h not in ('ok', 'reinit', 'second', 'dep-parse', 'include-via-searchpath')]
+    aborted = [h for h in hist if h not in ('ok', 'reinit', 'second', 'dep-parse', 'include-via-searchpath', 'long-string')]
     g = groups_of(events)
     if death is not None:
         stage = 'history' if 'history-done' not in g else 'probe'
